@@ -46,6 +46,7 @@ func run(c *core.Ctx) {
 	}
 	k.runSplatValues()
 	k.runAfterFailedWrite()
+	k.runLoadAfterReplace()
 	if c.Expired() {
 		return
 	}
@@ -77,6 +78,9 @@ func replay(c *core.Ctx) {
 	case "after-failed-write":
 		k.idx = -1 << 30
 		k.runAfterFailedWriteReplay()
+	case "load-after-replace":
+		k.idx = -1 << 30
+		k.runLoadAfterReplaceReplay()
 	case "splat-ladder":
 		k.splatCase(ladderCloud(cs.N), "replay", cs)
 	case "spz":
